@@ -43,6 +43,7 @@ pub fn main(prop: &'static str, args: &Args) {
         let (t, extra) = crate::c04::explore("C03", depth, true, true);
         rep.set("algebra", extra);
         rep.absorb(t);
+        rep.absorb(crate::c04::structured("C03", true, true));
         // built-in targets: faulty list members, array elements, map entries and scalar items
         // among siblings, at every position
         let t = crate::c03b::sweep();
